@@ -1,37 +1,24 @@
-"""Per-property run plans for check.py.
+"""Per-property run plans for check.py: each harness/cNN/plan.py defines PLAN = dict(id="CNN", pkg="cNN", ...).
 
+Plan keys: level, rule (evidence text), assumptions, technique, level_text, level_note, runs, require, cli.
 Each run spec: name, run (go test -run regexp), checks=(quick, thorough) rapid case counts,
 shards=(quick, thorough) processes (each with its own derived seed / enumeration shard),
 timeout=(quick, thorough) seconds. Optional: race, fuzz/fuzztime, mem_gb, serial, tier_only.
 """
+import glob, os
 
 TRUSTED = ["Go standard library (crypto, net/url, net/http, encoding/*)", "pgregory.net/rapid v1.3.0",
            "the independent reference implementations under /verif/harness/ref (written from the spec texts)"]
 
-PROPS = {}
-NOT_APPLICABLE = {}
-
 NOTE_BASE = ("Trusted base: Go standard library, rapid, and the harness's reference implementations (adjudicated against the cited spec text). "
              "Held-on-everything-explored, not absence of defects; the explored space is described in the evidence file.")
 
-PROPS["C12"] = dict(
-    pkg="c12", level="exploration",
-    rule=("call: one Decode* call on an enumerated input (every initial byte x argument patterns x content length classes x method); "
-          "roundtrip: encoder output decoded again; stream: concatenated items (any head width) decoded by a drawn call sequence with a "
-          "position-tracking reader. Oracle = RFC 8949 head/length semantics recomputed by refcbor: success iff well-formed item of the "
-          "requested major type, exact value, exact consumption. Non-trivial: the head parses (call), the encoder accepted the value "
-          "(roundtrip), at least two successful calls (stream); distinct by fingerprint of the case."),
-    assumptions=TRUSTED + ["On a failed call the reader position is unspecified and not compared"],
-    runs=[
-        dict(name="exh", run="^(TestExhaustiveHeads|TestExhaustiveRoundTripBoundaries|TestCorpus)$"),
-        dict(name="rt", run="^TestPropRoundTrip$", checks=(3000, 60000), shards=(1, 4)),
-        dict(name="stream", run="^TestPropStream$", checks=(5000, 200000), shards=(1, 8)),
-    ],
-    technique="exhaustive enumeration of CBOR heads x content classes + rapid round trips and call histories, differential against an independent RFC 8949 head parser",
-    level_text=("Exhaustive over every initial byte x argument pattern class x content length class x Decode method (finite space, enumerated "
-                "completely on every run) plus random round trips and concatenated-item call histories with a position-tracking reader; the oracle "
-                "is an independent RFC 8949 head/length semantics. Exploration level: the enumerated classes are the ones where a head parser "
-                "can go wrong (width classes, reserved/indefinite info, truncation, 2^63 lengths, UTF-8)."),
-    level_note=NOTE_BASE,
-    require=[("call", "expect-accept"), ("call", "expect-reject"), ("stream", "has-nonshortest-head")],
-)
+PROPS = {}
+NOT_APPLICABLE = {}
+
+_here = os.path.dirname(os.path.abspath(__file__))
+for _p in sorted(glob.glob(os.path.join(_here, "harness", "c[0-9][0-9]", "plan.py"))):
+    _g = dict(TRUSTED=TRUSTED, NOTE_BASE=NOTE_BASE)
+    exec(compile(open(_p).read(), _p, "exec"), _g)
+    _plan = _g["PLAN"]
+    PROPS[_plan["id"]] = _plan
